@@ -14,6 +14,8 @@ pub const F32_EPS: f64 = 5.960464477539063e-8; // 2^-24
 pub enum Expect {
     /// must be null
     Null,
+    /// must be null; the tag names the reason and becomes part of the violation signature
+    NullTag(&'static str),
     /// must be non-null and exactly this value
     Exact(f64),
     /// must be non-null and within `hw` of `v`
@@ -62,7 +64,7 @@ impl Expect {
     /// `extra_rel`: additional relative slack (e.g. f32 output rounding)
     pub fn check(&self, o: Obs, extra_rel: f64) -> Verdict {
         match self {
-            Expect::Null => {
+            Expect::Null | Expect::NullTag(_) => {
                 if o.null { Verdict::Ok } else { Verdict::NullMismatch }
             },
             Expect::Exact(v) => {
@@ -121,6 +123,7 @@ impl Expect {
     pub fn describe(&self) -> String {
         match self {
             Expect::Null => "null".into(),
+            Expect::NullTag(t) => format!("null[{t}]"),
             Expect::Exact(v) => format!("=={v:?}"),
             Expect::Approx { v, hw } => format!("{v:?}±{hw:e}"),
             Expect::OneOf(a) => {
@@ -673,7 +676,9 @@ pub fn pair_expect(which: Pair, y: &[f64], x: &[f64], e: &ErrCtx, hist_maxabs_xy
             let (fx, vx, _) = var_floor(x, &ex);
             let (fy, vy, _) = var_floor(y, &ey);
             if vx <= 0.0 || vy <= 0.0 {
-                return Expect::Null; // zero spread → null (fixed by the property)
+                // correlation with a zero-variance side is mathematically undefined; C04 does not
+                // fix its value (the library's EPS floor usually, not always, yields null)
+                return Expect::Any("correlation with a zero-variance side is undefined");
             }
             if fx == Floor::Below || fy == Floor::Below {
                 return Expect::OneOf(vec![Expect::Null, Expect::NonNull("variance below EPS floor")]);
